@@ -5,8 +5,11 @@ the bytes themselves — and whatever is computed from them — stay abstract.  
 and a branch on an unknown value is analysis-broken rather than guessed.
 
 Faults (an access outside a region, a negative length given to a copy) are collected, not raised: they are the findings."""
+import sys
 from .facts import AnalysisBroken
 from . import q
+
+sys.setrecursionlimit(max(sys.getrecursionlimit(), 40000))
 
 WIDTH = {'unsigned char': 8, 'unsigned short': 16, 'unsigned int': 32, 'unsigned long': 64, 'unsigned long long': 64, 'bool': 1,
          'char': -8, 'signed char': -8, 'short': -16, 'int': -32, 'long': -64, 'long long': -64}
@@ -99,6 +102,7 @@ class Interp:
         self.freed = set()
         self.heap = 0
         self.globals = {}
+        self.max_depth = 150
         self.string_mode = False     # build std::string values as concrete text (S) instead of passing C-string pointers through
         self.noeval = {'LogPrintfFunc', 'LogPrintf', 'printf', 'fprintf'}
 
@@ -463,6 +467,10 @@ class Interp:
                 return 0
             if cls.startswith('std::chrono::'):
                 return args[0] if args and isinstance(args[0], int) else 0
+            if 'basic_ostringstream' in cls or 'basic_stringstream' in cls:
+                rec = {'__cls__': 'std::ostringstream', '__open__': True, '__text__': ''}
+                self._keep.append(rec)
+                return self.ref(rec)
             if len(args) == 1:
                 return args[0]
             if not args and cls and 'std::' not in cls:
@@ -535,6 +543,11 @@ class Interp:
         if this is not None:
             self.this = this
         self._depth = getattr(self, '_depth', 0) + 1
+        if self._depth > self.max_depth:
+            self._depth -= 1
+            self.this = saved
+            self.fault(f, f.stmts[0], 'the call chain is %d calls deep (recursion that the input controls)' % self.max_depth)
+            raise _Abort()
         try:
             self.run(f, f.body, env)
         except _Return as r:
@@ -549,7 +562,9 @@ class Interp:
         return None
 
     def _call(self, f, st, env):
-        name = (st.get('fn') or (st.get('callee') or '').split('<')[0].split('::')[-1]).split('<')[0]
+        name = st.get('fn') or (st.get('callee') or '').split('<')[0].split('::')[-1]
+        if not name.startswith('operator'):
+            name = name.split('<')[0]
         if name in self.noeval:
             return None         # calls whose arguments are not worth evaluating (logging)
         if (st.get('callee') or '').startswith('std::swap') and len(st.get('args', [])) == 2 and 'swap' not in self.hooks:
@@ -1432,3 +1447,38 @@ VECTOR_HOOKS.update({'emplace': _emplace, 'find': _find, 'begin': _begin, 'end':
                      'front': lambda it, f, st, a: _elem(it, f, st, _vec(it, f, st), 0, 'front', False),
                      'pop_back': lambda it, f, st, a: _vec(it, f, st).pop() if _vec(it, f, st) else it.fault(f, st, 'pop_back on an empty sequence'),
                      })
+
+
+# ---- std::ostringstream as a text accumulator -----------------------------------------------------------------------------------------
+
+def h_stream_out(it, f, st, a):
+    """operator<< on a string stream (member or free form): append the text of the value"""
+    rec = it.record_of(it.cur_obj)
+    val_id = None
+    if rec is not None and '__text__' in rec:
+        val = a[-1] if a else None
+        val_id = st.get('args', [None])[-1]
+    else:
+        rec = it.record_of(a[0]) if a else None
+        val = a[-1] if len(a) > 1 else None
+        val_id = st.get('args', [None, None])[-1]
+    if rec is None or '__text__' not in rec:
+        return it.cur_obj
+    t = it.to_text(val)
+    if t is None and isinstance(val, int):
+        vt = (f.s(val_id) or {}).get('t', '') if val_id is not None else ''
+        t = chr(val & 0xff) if 'char' in vt else str(val)
+    if t is None:
+        raise AnalysisBroken('%s: a value the replay keeps abstract is written to a string stream (%s)' % (f.short, f.loc(st['i'])))
+    rec['__text__'] += t
+    return it.ref(rec)
+
+
+def h_stream_str(it, f, st, a):
+    rec = it.record_of(it.cur_obj)
+    if rec is None or '__text__' not in rec:
+        raise AnalysisBroken('%s: str() on something the replay does not hold as a string stream (%s)' % (f.short, f.loc(st['i'])))
+    return S(rec['__text__'])
+
+
+STREAM_HOOKS = {'operator<<': h_stream_out, 'str': h_stream_str}
